@@ -44,11 +44,14 @@ AllEntailed(cert) == \A i \in 1..Len(cert) : EntailsCl(mods, cert[i])
 FirstEmpty(cert) == IF \E i \in 1..Len(cert) : cert[i] = <<>>
                     THEN CHOOSE i \in 1..Len(cert) : cert[i] = <<>> /\ \A j \in 1..(i - 1) : cert[j] # <<>>
                     ELSE Len(cert)
+(* a line holding a literal and its negation is a tautology: whether a checker must accept such  *)
+(* a degenerate line is left open (the completeness clause is only applied without them)        *)
+Tautological(cert) == \E i \in 1..Len(cert) : \E j, k \in 1..Len(cert[i]) : cert[i][j] = -cert[i][k]
 CheckWhy(e) ==
   IF e.before # e.after THEN "check-problem-modified"
   ELSE IF e.err THEN "check-error"
   ELSE IF e.valid /\ ~AllEntailed(SubSeq(e.cert, 1, FirstEmpty(e.cert))) THEN "check-accepted-non-consequence"
-  ELSE IF ~e.valid /\ FirstNonRUP(F0, e.cert) = 0 THEN "check-rejected-rup-certificate"
+  ELSE IF ~e.valid /\ FirstNonRUP(F0, e.cert) = 0 /\ ~Tautological(e.cert) THEN "check-rejected-rup-certificate"
   ELSE IF e.valid2 # e.valid THEN "check-not-reusable"
   ELSE ""
 
